@@ -25,6 +25,9 @@ type Config struct {
 	// atomic steps), "all", "none".
 	Hooks    string              `json:"hooks,omitempty"`
 	TunnelMD map[string][]string `json:"tunnelMD,omitempty"`
+	// KeepSending: the scripted applications go on sending after a send failed (illegal
+	// applications, for the shape-enforcement scenarios).
+	KeepSending bool `json:"keepSending,omitempty"`
 	// Snap: take a goroutine snapshot at every quiescent point (else only at
 	// the end).
 	Snap bool `json:"snap,omitempty"`
